@@ -894,39 +894,30 @@ class JinjaTemplater(PythonTemplater):
         handled correctly and can be combined with those from the original
         template.
         """
-        # NOTE: We sort the stack because it's important that it's in order
-        # because we're going to be popping from one end of it. There's no
-        # guarantee that the items are in a particular order a) because it's
-        # a dict and b) because they may have been generated out of order.
-        delta_stack = sorted(length_deltas.items(), key=lambda t: t[0])
+        # NOTE: We sort the deltas so that we can work out where each modified
+        # tag starts in the *modified* template. There's no guarantee that the
+        # items are in a particular order a) because it's a dict and b) because
+        # they may have been generated out of order.
+        modified_tags: list[tuple[int, int]] = []
+        shift = 0
+        for idx, d in sorted(length_deltas.items(), key=lambda t: t[0]):
+            modified_tags.append((idx + shift, d))
+            shift += d
 
         adjusted_slices: list[TemplatedFileSlice] = []
-        carried_delta = 0
         for tfs in sliced_template:
-            if delta_stack:
-                idx, d = delta_stack[0]
-                if idx == tfs.source_slice.start + carried_delta:
-                    adjusted_slices.append(
-                        tfs._replace(
-                            # "stretch" the slice by adjusting the end more
-                            # than the start.
-                            source_slice=slice(
-                                tfs.source_slice.start + carried_delta,
-                                tfs.source_slice.stop + carried_delta - d,
-                            )
-                        )
-                    )
-                    carried_delta -= d
-                    delta_stack.pop(0)
-                    continue
-
-            # No delta match. Just shift evenly.
+            start = tfs.source_slice.start
+            stop = tfs.source_slice.stop
+            # Shift by the deltas of all the modified tags before this slice.
+            # NOTE: A slice may be visited more than once (loops), so this
+            # must not depend on which slices we have already seen.
+            before = sum(d for pos, d in modified_tags if pos < start)
+            # If this slice *is* a modified tag, "stretch" it by adjusting
+            # the end more than the start.
+            at = sum(d for pos, d in modified_tags if pos == start and stop > start)
             adjusted_slices.append(
                 tfs._replace(
-                    source_slice=slice(
-                        tfs.source_slice.start + carried_delta,
-                        tfs.source_slice.stop + carried_delta,
-                    )
+                    source_slice=slice(start - before, stop - before - at)
                 )
             )
         return adjusted_slices
